@@ -209,7 +209,8 @@ def build():
     add("scipy_interpolation", I.scipy_interpolation, "genScipyInterpolation",
         ["pixels", "points_to_sample", "mode", "order", "cval"], ctx=["spl"], ret_type="Sampled", monadic=False,
         coerce=CVAL,
-        expr=[("np.empty(($n, points_to_sample.shape[0]), dtype=pixels.dtype)", "(emptySampled {n} (Pixels.isBool {pixels}))"),
+        expr=[("np.empty(($n, $m), dtype=$p.dtype)", "(emptySampled {n} (Pixels.isBool {p}))"),
+              ("points_to_sample.shape[0]", "(nPointsOf {points_to_sample})"),
               ("$p.shape[0]", "(nChannelsP {p})"), ("$p.T", "{p}")],
         stmt=[("map_coordinates($px[$i], $pts, mode=$m, order=$o, cval=$c, output=$out[$i])", "out",
                "(setSampled {out} {i} (mapCoordinates spl (Sampled.isBool {out}) (channel {px} {i}) {pts} {m} {o} {c}))")],
